@@ -448,11 +448,7 @@ pub fn run_concurrent(sc: &Scenario, seed: u64, policy: Policy) -> Option<RunRes
             Sharing::Clones => true,
             Sharing::Mixed => t % 2 == 1,
         };
-        let regs: Vec<Arc<Regex>> = if use_clone {
-            shared.iter().map(|r| Arc::new((**r).clone())).collect()
-        } else {
-            shared.clone()
-        };
+        let originals: Vec<Arc<Regex>> = shared.clone();
         let texts = texts.clone();
         let sched = sched.clone();
         let results = results.clone();
@@ -464,6 +460,28 @@ pub fn run_concurrent(sc: &Scenario, seed: u64, policy: Policy) -> Option<RunRes
                     sched.enter(t);
                     verif::set_yield_hook(Some(sched::yield_hook));
                     let mut mine = Vec::new();
+                    // a thread that works through clones makes them itself, as its first action
+                    // (other threads may already be searching the originals); a `clone()` that
+                    // panics is this thread's result for every operation
+                    let regs: Vec<Arc<Regex>> = if use_clone {
+                        match std::panic::catch_unwind(std::panic::AssertUnwindSafe(|| originals.iter().map(|r| Arc::new((**r).clone())).collect::<Vec<_>>())) {
+                            Ok(v) => {
+                                drop(originals);
+                                v
+                            }
+                            Err(p) => {
+                                let msg = panic_message(p);
+                                mine = ops.iter().map(|_| format!("PANIC(Regex::clone: {})", msg)).collect();
+                                verif::set_yield_hook(None);
+                                results.lock().unwrap()[t] = mine;
+                                drop(mail);
+                                sched.finish(t);
+                                return;
+                            }
+                        }
+                    } else {
+                        originals
+                    };
                     for op in &ops {
                         let r = exec_op_with(&regs[op.re], &texts[op.text], op, Some(&mail));
                         mine.push(r);
